@@ -37,9 +37,13 @@ import (
 	"strings"
 	"sync"
 	"time"
+
+	"github.com/tinode/chat/server/logs"
 )
 
 func init() { verifHandlers["c17"] = c17Election }
+
+var c17LogOnce sync.Once
 
 type c17Resp struct {
 	seq  uint64
@@ -186,7 +190,7 @@ func (nt *c17Net) barrier(name string) bool {
 		nt.cl[name].Vote(&ClusterVoteRequest{Node: "barrier", Term: 0}, &resp)
 		res <- true
 	}()
-	for i := 0; i < 2000; i++ {
+	for i := 0; i < 30000; i++ {
 		select {
 		case <-res:
 			return true
@@ -228,6 +232,11 @@ func (nt *c17Net) observe() string {
 func c17Election(w []string) string {
 	n := c17Idx(w[0])
 	failLimit := c17Idx(w[1])
+	c17LogOnce.Do(func() {
+		// no log writes inside handlers: a goroutine blocked in write(2) on the stderr pipe looks parked
+		// ("syscall") to vQuiescent, and the observation would be taken before electLeader has finished
+		logs.Init(io.Discard, "stdFlags")
+	})
 	if globals.hub == nil {
 		globals.hub = &Hub{rehash: make(chan bool), topics: &sync.Map{}}
 		go func() {
@@ -347,7 +356,7 @@ func c17Election(w []string) string {
 					close(done)
 				}()
 				// electLeader has issued all requests when every peer has a captured call
-				for i := 0; i < 5000; i++ {
+				for i := 0; i < 300000; i++ {
 					nt.mu.Lock()
 					cnt := 0
 					for _, other := range nt.names {
@@ -385,7 +394,7 @@ func c17Election(w []string) string {
 				go func() { nt.cl[m].Vote(&req, &resp); done <- true }()
 				select {
 				case <-done:
-				case <-time.After(2 * time.Second):
+				case <-time.After(30 * time.Second):
 					return strings.Join(out, "|") + "|HANG vote"
 				}
 				call.resp = c17Resp{seq: call.seq, vote: resp}
